@@ -249,7 +249,7 @@ def run(tier):
     rep.functions = FUNCTIONS
     base = seed() * 104729
     variants = ['dedup', 'nodedup', 'dedup', 'unused', 'macro', 'dedup']
-    nd = 48 if tier == 'quick' else 480
+    nd = 48 if tier == 'quick' else 1500
     tasks = [(base + i, 2 + i % 2 + (tier != 'quick') * (i % 3 == 0), 2 + i % 2, variants[i % len(variants)]) for i in range(nd)]
     for r in run_pool(worker, tasks):
         rep.merge(r)
